@@ -10,6 +10,9 @@ TRUST = ("Trusted: Go type checker and go/ssa (x/tools v0.29.0), CHA/VTA call gr
 
 # id -> (technique, level text, design ref)   -- only properties whose check exists are listed here
 CLAIMS = {
+    "C10": ("ordering (dominance) analysis over go/ssa of the round protocol of Solver.Assume: retraction before installation, status reset before propagation, binding+flag+trail triple per literal, propagate(0,1) on every path; constant-argument check of every call of the level-retraction function",
+            "Decides the round protocol of Assume on every path and that top-level bindings are never retracted wholesale. Necessary conditions; correctness of each round's answer is not decided. One known finding (D7) is reported as KNOWN-FINDING.",
+            "DESIGN.md section 5, C10"),
     "C08": ("dominance and path analysis over go/ssa of the certificate checker: acceptance of a line dominated by the successful RUP test of the same value, deferred restoration and tag initialisation in the entry block, save/restore pairing of the unit bindings on every return path, tagging on every propagation/conflict path, sibling comparison of the two readers",
             "Decides that a line is never accepted without its own RUP test, that what the check changes is restored on every exit, that every clause used is tagged, and that both entry points perform the same steps. Necessary conditions; that the propagation loop equals unit propagation is not decided.",
             "DESIGN.md section 5, C08"),
